@@ -35,6 +35,13 @@ Step ==
                       ELSE IF e.len # Len(q') THEN <<"C12.Fifo", "length after enqueue">>
                       ELSE IF e.max # max THEN <<"C12.MovePreserves", "max_queue_size changed">>
                       ELSE <<"ok", "">>
+     \/ /\ e.op = "enqfrag" /\ frag /\ EnqFrag(Fr(e.f))
+        /\ verdict' = IF ~e.first THEN <<"C12.EnqueueResult", "first fragment refused">>
+                      ELSE IF EnqClause(e) # "ok" THEN <<EnqClause(e), "enqueue result of the completing fragment">>
+                      ELSE IF e.len # Len(q') THEN <<"C12.Fifo", "length after re-assembly">>
+                      ELSE IF e.max # max THEN <<"C12.MovePreserves", "max_queue_size changed">>
+                      ELSE <<"ok", "">>
+     \/ /\ e.op = "enqfrag" /\ ~frag /\ UNCHANGED vars /\ verdict' = <<"harness", "enqfrag recorded while fragmentation is off">>
      \/ /\ e.op = "deq" /\ Deq
         /\ verdict' = IF FrontClause(e, q) # "ok" THEN <<FrontClause(e, q), "dequeue result">>
                       ELSE IF e.len # Len(q') THEN <<"C12.Once", "length after dequeue">>
